@@ -45,7 +45,16 @@ def gen_case(seed, idx):
         consts = {}
         for k in range(int(rng.integers(0, 3))):
             ln = int(rng.integers(1, 10)) if rng.random() < 0.8 else 0
-            consts['c%d' % k] = val(rng, 'double', (ln,)).tolist()
+            r_ = rng.random()
+            if r_ < 0.6:
+                consts['c%d' % k] = val(rng, 'double', (ln,)).tolist()
+            elif r_ < 0.85:
+                # integer constants (ids, counts; some beyond 2**53)
+                consts['ci%d' % k] = [
+                    int(v) for v in rng.integers(-5, 2 ** 62, size=ln)]
+            else:
+                consts['cf%d' % k] = [float(np.float32(v)) for v in
+                                      rng.normal(size=ln)]
         tags = rng.choice([0, 0, 0, 1, 2], size=n).tolist() \
             if rng.random() < 0.5 else [0] * n
         outmode = str(rng.choice(['default', 'subset', 'empty', 'all']))
@@ -67,7 +76,10 @@ def build(case):
     for a in case['arrays']:
         rng = np.random.default_rng(a['seed'])
         n = a['n']
-        consts = {k: np.array(v) for k, v in a['consts'].items()} or None
+        consts = {k: np.array(v, dtype=(
+            np.int64 if k.startswith('ci') else (
+                np.float32 if k.startswith('cf') else np.float64)))
+            for k, v in a['consts'].items()} or None
         if a['seed'] % 3 == 0:
             # an array of non-local particles (a ghost / mirror array): new
             # particles default to that tag (documented constructor argument)
@@ -151,6 +163,12 @@ def compare(orig, got, detailed, only_real, where):
                       '%d particles x stride %d' % (
                           where, p, g.length,
                           got.get_number_of_particles(), st))
+    if 'tag' in stored and got.num_real_particles != \
+            orig.num_real_particles:
+        # the same particles are the real ones (what every `pa.x` shows)
+        raise Bad('real-count', '%s: %d real particles -> %d (tags %s)' % (
+            where, orig.num_real_particles, got.num_real_particles,
+            got.properties['tag'].get_npy_array().tolist()[:20]))
     if set(got.constants) != set(orig.constants):
         raise Bad('constants', '%s: constants %s -> %s' % (
             where, sorted(orig.constants), sorted(got.constants)))
@@ -159,6 +177,10 @@ def compare(orig, got, detailed, only_real, where):
         if len(a) != len(b) or not np.array_equal(a, b):
             raise Bad('constants', '%s: constant %s %r -> %r' % (
                 where, k, a.tolist(), b.tolist()))
+        if c.get_c_type() != got.constants[k].get_c_type():
+            raise Bad('constant-type', '%s: constant %s of C type %s -> %s'
+                      % (where, k, c.get_c_type(),
+                         got.constants[k].get_c_type()))
     if set(got.output_property_arrays) != set(orig.output_property_arrays):
         raise Bad('output-arrays', '%s: output arrays %s -> %s (detailed=%s)'
                   % (where, sorted(orig.output_property_arrays),
